@@ -255,7 +255,8 @@ pub fn copy_node(src: &Path, dest: &Path) -> Result<()> {
     let rmode = RawMode::from(meta.permissions().mode());
     let mode = Mode::from_raw_mode(rmode);
     let ftype = FileType::from_raw_mode(rmode);
-    let dev = meta.dev();
+    // The device the node *refers to* (st_rdev), not the one it lives on.
+    let dev = meta.rdev();
 
     mknodat(CWD, dest, ftype, mode, dev)?;
     Ok(())
